@@ -34,9 +34,24 @@ def generate(ctx):
 lean_ops = mc.lean_ops
 
 
-def without_hidden_insertions(case):
-    """(case', transforms') with every insertion dict flagged `hide: true` deleted on non-array dimensions"""
+def without_hidden_insertions(case, flagged=True):
+    """(case', changed): flagged=True: every insertion dict flagged `hide: true` DELETED on non-array dimensions;
+    flagged=False: every insertion hide flag that is not the bool true (1, "true", None, False) REMOVED from its dict"""
     c2 = copy.deepcopy(case)
+    if not flagged:
+        changed = False
+        pd, _ = mc.part_dims(case)
+        for key, raw, v, axis in pd:
+            if axis == "items":
+                continue
+            lists = [c2["transforms"].get(key, {}).get("insertions") or []]
+            lists += [d.get("view_insertions") or [] for d in c2["vars"] if d["alias"] == v.alias]
+            for l in lists:
+                for i in l:
+                    if isinstance(i, dict) and "hide" in i and i["hide"] is not True:
+                        del i["hide"]
+                        changed = True
+        return c2, changed
     tr = c2["transforms"]
     pd, _ = mc.part_dims(case)
     changed = False
@@ -109,6 +124,19 @@ def evaluate(case, louts, ctx):
                     if not mc.close(x[f], y[f]):
                         findings.append({"kind": "spec", "locus": "meta.hidden-insertion.%s" % f,
                                          "detail": "k=%d axis %d: with the hidden insertions %s, without %s" % (
+                                             k, j, mc.short(x[f]), mc.short(y[f]))})
+    c3, changed3 = without_hidden_insertions(case, flagged=False)
+    if changed3:
+        ctx.count("meta.non-true-insertion-hide-removed")
+        cube_3 = mc.make_cube(c3, c3["transforms"])
+        for k, (p, q) in enumerate(zip(cube_t.partitions, cube_3.partitions)):
+            a1, _ = mc.observe_part(p)
+            a3, _ = mc.observe_part(q)
+            for j, (x, y) in enumerate(zip(a1, a3)):
+                for f in x:
+                    if not mc.close(x[f], y[f]):
+                        findings.append({"kind": "spec", "locus": "meta.insertion-hide-not-true.%s" % f,
+                                         "detail": "k=%d axis %d: with a non-true hide flag %s, without the flag %s" % (
                                              k, j, mc.short(x[f]), mc.short(y[f]))})
     key = ("x".join(kinds), repr(tr)) if has_hide else None
     return findings, key
